@@ -709,7 +709,9 @@ class Path:
         c = self.truth(self.eval(s.test))
         if self.spec_mode or self.cfg.asserts_are_obligations(self):
             # in ghost/lemma code an assert is a proof obligation
-            self.oblige(self.cfg.obl_name(self, 'assert', f'L{s.lineno}'), 'assert', c)
+            # `assert cond, 'label'` in ghost/lemma code names the obligation (stable across edits of the sidecar)
+            label = s.msg.value if isinstance(s.msg, ast.Constant) and isinstance(s.msg.value, str) else f'L{s.lineno}'
+            self.oblige(self.cfg.obl_name(self, 'assert', label), 'assert', c)
             return
         if not self.branch(c):
             raise PyExc(AssertionError())
